@@ -67,7 +67,11 @@ def alphabet():
             'badclient 1.0', tx5[:-2] + '\t\n', tx5, tx2, '00' * 32, 'tx', 'txid', 'block_header', 'merkle_root', 'block_hash',
             'x' * 10000, [], [1], [[]], {}, {'a': {'b': [1]}}, {'hosts': {'example.com': {'tcp_port': True}}},
             {'hosts': {'a..b': {'tcp_port': 50001}}}, {'hosts': {'a' * 64 + '.com': {'ssl_port': 50002}}},
-            {'hosts': {'exampéle.com': {'tcp_port': 50001}}, 'protocol_min': '1.4', 'protocol_max': '1.4.2'}]
+            {'hosts': {'exampéle.com': {'tcp_port': 50001}}, 'protocol_min': '1.4', 'protocol_max': '1.4.2'},
+            # version strings whose parts str.isdigit() accepts and int() refuses, or that are
+            # longer than int() converts
+            '1.4²', '1.' + '4' * 4301, ['1.4', '①.4'],
+            {'hosts': {'example.com': {'tcp_port': 50001}}, 'protocol_min': '1.4', 'protocol_max': '1.4²'}]
     small = [None, True, 0, 1, -1, tip, tip + 1, 5, 2017, 2 ** 64, 10 ** 400, 0.5, inf, float('nan'),
              '', '5', sh, sh_none, sh[:-1], sh[:-2] + '  ', tx5, tx2, 'tx', 'merkle_root', [], {}, [1], 'x' * 10000,
              -(10 ** 400), 252, 253]
